@@ -11,7 +11,7 @@ from pyvc.sym import Sym, Arr, Obj, UserFn, Vec, R, I, B, wrap, zreal, zint, zbo
 from pyvc.harness import session, run_program, cover, UnitReport
 from pyvc.values import PyExc
 from contracts.common import F, Gr, Fs, Vs, count, fresh_vec, inbox
-from contracts.scalar_function import SfCfg, sf_inv, sf_havoc, MODES
+from contracts.scalar_function import SfCfg, sf_inv, sf_havoc, MODES, sf_method_spec, sf_old_state
 
 P = ("C15",)
 
@@ -55,6 +55,7 @@ def make_program(mode, method):
         old = dict(fu=zbool(sf.f["f_updated"]), gu=zbool(sf.f["g_updated"]), xv=run.heap[sf.f["x"].ref],
                    cF=count(run, "fun"), cG=count(run, "jac"), st=zint(run.ghost["stencil"]),
                    fd=zint(run.ghost["fd_calls"]))
+        old_state = sf_old_state(run, sf)
         tag = f"scalar_function.ScalarFunction.{method}[{mode}]"
         try:
             res = it.call(it.getattr(sf, method), [arg], {})
@@ -108,6 +109,18 @@ def make_program(mode, method):
                 run.oblige(tag + "::ensures::no_reeval",
                            z3.And(dfd == z3.If(gcached, 0, 1), dF - stencil == base,
                                   z3.Implies(gcached, stencil == 0)), P)
+        # the post-state specification that callers rely on (contracts.scalar_function.sf_method_spec)
+        kst = zint(run.ghost["stencil"]) - old["st"]
+        post = sf_method_spec(method, cfg, old_state, av, kst)
+        PP = ("C15", "C05", "SPEC")
+        run.oblige(tag + "::ensures::post[f_updated]", zbool(sf.f["f_updated"]) == post["fu"], PP)
+        run.oblige(tag + "::ensures::post[g_updated]", zbool(sf.f["g_updated"]) == post["gu"], PP)
+        run.oblige(tag + "::ensures::post[f]", z3.Implies(post["fu"], zreal(sf.f["f"]) == post["f"]), PP)
+        run.oblige(tag + "::ensures::post[g]", z3.Implies(post["gu"], run.heap[sf.f["g"].ref] == post["g"]), PP)
+        run.oblige(tag + "::ensures::post[nfev]",
+                   count(run, "fun") - old["cF"] == post["dF_direct"] + post["stencil"], PP)
+        ngr = (count(run, "jac") - old["cG"]) if mode == "callable" else (zint(run.ghost["fd_calls"]) - old["fd"])
+        run.oblige(tag + "::ensures::post[ngev]", ngr == post["dGrad"], PP)
         for lab, f in sf_inv(run, sf, cfg, base_f, base_g):
             run.oblige(f"{tag}::inv_preserved::{lab}", f, P)
         run.oblige(tag + "::ensures::cache_is_requested_point", run.heap[sf.f["x"].ref] == av, P)
